@@ -254,9 +254,18 @@ def make_callable(kind: str, name: str, tag: Any = None) -> Callable[..., Any]:
         return Service(name, tag).handler
     if kind == "partial":
         return functools.partial(_partial_target, name, tag)
+    if kind == "named_instance":
+        # a callable object that carries the CEL name as its own __name__ (usable in the list form)
+        obj = CallableObject(name, tag)
+        obj.__name__ = name  # type: ignore[attr-defined]
+        return obj
+    if kind == "named_partial":
+        part = functools.partial(_partial_target, name, tag)
+        part.__name__ = name  # type: ignore[attr-defined]
+        return part
     raise ValueError(kind)
 
 
-LIST_FORM_KINDS = ["module_def", "nested_def"]  # need a usable __name__
+LIST_FORM_KINDS = ["module_def", "nested_def", "named_instance", "named_partial"]  # have a __name__
 DICT_FORM_KINDS = ["module_def", "nested_def", "lambda", "instance", "bound_method", "partial",
                    "unhashable_instance", "unhashable_bound_method"]
